@@ -105,6 +105,9 @@ def t1(site, p):
     """mechanical discharge; returns reason or None"""
     k = site.kind
     x = site.extra
+    r0 = ledger.t1_common(site)
+    if r0:
+        return r0
     if k == "overflow":
         a, b = const_small(x.get("a", ("unk",))), const_small(x.get("b", ("unk",)))
         if a is not None and b is not None:
